@@ -31,6 +31,7 @@ type faultWriter struct {
 	slow     bool
 	failed   bool
 	err      error       // what a failing write returns (default: a private error)
+	full     bool        // the failing write reports the full byte count together with its error
 	returned atomic.Bool // set as soon as Encode has returned
 	late     atomic.Int32
 }
@@ -48,10 +49,14 @@ func (w *faultWriter) Write(p []byte) (int, error) {
 	}
 	if w.k >= 0 && w.n >= w.k {
 		w.failed = true
-		if w.err != nil {
-			return 0, w.err
+		n := 0
+		if w.full {
+			n = len(p) // allowed by io.Writer: the data was taken, the write still failed
 		}
-		return 0, errors.New("injected write failure")
+		if w.err != nil {
+			return n, w.err
+		}
+		return n, errors.New("injected write failure")
 	}
 	w.n++
 	return w.buf.Write(p)
@@ -72,6 +77,8 @@ type failingDoc struct {
 	Tail    failingTail    `xml:"tail"`
 }
 
+var ltHangs int
+
 func ltWriteErr(kind string) error {
 	switch kind {
 	case "closedpipe":
@@ -85,7 +92,7 @@ func ltWriteErr(kind string) error {
 	case "short":
 		return io.ErrShortWrite
 	}
-	return nil
+	return nil // "inj", "full": a private error value
 }
 
 func ltDB(laps, pad int) *laptimer.DB {
@@ -117,6 +124,10 @@ func ltRun(toks []string) string {
 	if gz {
 		opts = append(opts, laptimer.Compress())
 	}
+	if ltHangs >= 3 {
+		// every hang costs a watchdog period: after three the run is decided
+		return "hang-skipped"
+	}
 	var db any = ltDB(laps, pad)
 	if mf {
 		fd := &failingDoc{Name: "x"}
@@ -129,9 +140,20 @@ func ltRun(toks []string) string {
 
 	// fault-free reference run (with an unmarshallable document it fails, on a working output)
 	ref := &faultWriter{k: -1}
-	enc, _ := laptimer.NewEncoder(ref, opts...)
-	if err := enc.Encode(db); (err != nil) != mf {
-		return fmt.Sprintf("bad reference run: %v", err)
+	refDone := make(chan error, 1)
+	go func() {
+		enc, _ := laptimer.NewEncoder(ref, opts...)
+		refDone <- enc.Encode(db)
+	}()
+	select {
+	case err := <-refDone:
+		if (err != nil) != mf {
+			return fmt.Sprintf("bad reference run: %v", err)
+		}
+	case <-time.After(10 * time.Second):
+		// even on a working output the call does not return
+		ltHangs++
+		return "hang"
 	}
 	full := ref.buf.Bytes()
 	lines := 0
@@ -146,7 +168,7 @@ func ltRun(toks []string) string {
 	}
 
 	before := runtime.NumGoroutine()
-	fw := &faultWriter{k: k, yield: yield, slow: slow, err: werr}
+	fw := &faultWriter{k: k, yield: yield, slow: slow, err: werr, full: cvField(toks, "ek") == "full"}
 	done := make(chan error, 1)
 	go func() {
 		e, _ := laptimer.NewEncoder(fw, opts...)
@@ -157,7 +179,8 @@ func ltRun(toks []string) string {
 	var err error
 	select {
 	case err = <-done:
-	case <-time.After(20 * time.Second):
+	case <-time.After(10 * time.Second):
+		ltHangs++
 		return "hang"
 	}
 	// no background activity once Encode has returned: let finished goroutines settle
@@ -326,7 +349,7 @@ func genLT(cfg *config, r *rng, i int, s *sink) string {
 	// running after the return shows) and may fail with an error value the code knows
 	mf := r.chance(1, 4)
 	slow := r.chance(1, 3)
-	ek := pick(r, []string{"inj", "inj", "closedpipe", "eof", "ueof", "closed", "short"})
+	ek := pick(r, []string{"inj", "inj", "full", "closedpipe", "eof", "ueof", "closed", "short"})
 	s.count("lt.mf." + b01(mf))
 	s.count("lt.ek." + ek)
 	return fmt.Sprintf("run laps=%d pad=%d k=%s gz=%s procs=%d yield=%s mf=%s slow=%s ek=%s", laps, pad, k, b01(gz), pick(r, []int{1, 2, 4, 16}), b01(r.bool()), b01(mf), b01(slow), ek)
@@ -378,7 +401,7 @@ func corpusLT(cfg *config) []string {
 	}
 	// the last writes failing with error values a pipe-based implementation might mistake for
 	// its own shutdown
-	for _, ek := range []string{"closedpipe", "eof", "ueof", "closed"} {
+	for _, ek := range []string{"closedpipe", "eof", "ueof", "closed", "full"} {
 		for k := 40; k <= 48; k++ {
 			ops = append(ops, fmt.Sprintf("run laps=3 pad=3000 k=%d gz=0 procs=2 yield=0 mf=0 slow=0 ek=%s", k, ek))
 		}
